@@ -124,6 +124,21 @@ def run_pair(case, chooser):
             s = rig.sessions[i]
             res[d] = {"transcript": norm(s.transcript), "tree": restrict(snap, d),
                       "data": [c.received for c in s.peer.conns[1:]]}
+        # a PathIO instance knows the Connection it works for (custom backends read it): every backend call on a
+        # session's own directory must come from that session's instance
+        ports = {}
+        for i, d in enumerate("ab"):
+            s = rig.sessions[i]
+            if s.ctl is not None:
+                ports[d] = s.ctl.t.get_extra_info("sockname")[1]
+        wrong = []
+        for (op, pth), owner in zip(rig.spy.calls, rig.spy.owners):
+            if pth is None:
+                continue
+            d = pth.split("/")[1] if pth.startswith("/") and len(pth) > 1 else None
+            if d in ports and owner != ports[d]:
+                wrong.append([op, pth, owner, ports[d]])
+        res["misattributed"] = wrong[:3]
         res["trace"] = report.fp(w.net.trace)
         res["events"] = w.net.n_events
         return res
@@ -146,6 +161,9 @@ def orders(na, nb):
 
 def compare(res, solo_a, solo_b, fire, only=None):
     problems = []
+    if res.get("misattributed"):
+        problems.append({"kind": "backend-instance-of-another-session", "calls(op, path, owner port, session port)":
+                         res["misattributed"]})
     for d, solo in (("a", solo_a), ("b", solo_b)):
         if only is not None and d != only:
             continue
